@@ -310,7 +310,6 @@ class MessageAssembler:
         self.packet_count = 0
 
     def on_pdu(self, pdu: bytes) -> None:
-        self.packet_count += 1
 
         # Drop empty PDUs sent by remote — accessing pdu[0] below would
         # raise IndexError, propagating up to the L2CAP read loop and
@@ -391,6 +390,8 @@ class MessageAssembler:
                 )
                 return
 
+            # Only a fragment that belongs to the message in progress counts
+            self.packet_count += 1
             self.message = (self.message or b'') + pdu[1:]
 
             if packet_type == Protocol.PacketType.END_PACKET:
